@@ -10,11 +10,13 @@
 #include "refcrypto.hpp"
 #include "runner.hpp"
 
+#include <sys/mman.h>
+
 using namespace sim;
 
 namespace {
 
-enum OpKind { OP_PUSH = 0, OP_REKEY = 1, OP_DELIVER = 2 };
+enum OpKind { OP_PUSH = 0, OP_REKEY = 1, OP_DELIVER = 2, OP_GIANT = 3 };
 enum Fault {
     F_INTACT = 0, F_DROP, F_DUP, F_DELAY, F_TRUNC, F_EXTEND, F_FLIP_TAGBYTE, F_FLIP_CT, F_FLIP_MAC,
     F_AD_FLIP, F_AD_DROP, F_AD_EXTEND, F_AD_SWAP, F_CROSS, F_REPLAY_OLD, F_NFAULTS
@@ -178,6 +180,35 @@ struct Exec {
         s.log.push_back(it);
         s.states.push_back(s.model_push);
         s.inflight.push_back(s.log.size() - 1);
+    }
+
+    // one self-contained push+pull whose associated data is longer than 2^32 bytes (a read-only anonymous mapping:
+    // every page is the shared zero page, so it costs time, not memory).  Thorough tier only, once per binary.
+    void do_giant(const Op &op) {
+        size_t adlen = ((size_t) 1 << 32) + 16 + (op.adlen % 200);
+        unsigned char *ad = (unsigned char *) mmap(nullptr, adlen, PROT_READ, MAP_PRIVATE | MAP_ANONYMOUS | MAP_NORESERVE, -1, 0);
+        if (ad == MAP_FAILED) { res.count("probe.giant_ad_skipped_no_address_space"); return; }
+        unsigned char key[32], hdr[24];
+        ref::Bytes k, h, m;
+        content(k, 32, 0x9001); content(h, 24, 0x9002); content(m, 1 + op.mlen % 300, 0x9003);
+        memcpy(key, k.data(), 32);
+        g_src.reset(plan.content_seed);
+        g_src.script.assign(h.begin(), h.end());
+        crypto_secretstream_xchacha20poly1305_state st_push, st_pull;
+        ref::StreamState model;
+        { LibScope l; crypto_secretstream_xchacha20poly1305_init_push(&st_push, hdr, key); crypto_secretstream_xchacha20poly1305_init_pull(&st_pull, hdr, key); }
+        ref::stream_init(model, hdr, key);
+        ref::Bytes expect = ref::stream_push(model, m.data(), m.size(), ad, adlen, 0);
+        Exact out(m.size() + 17), dec(m.size());
+        int rc, rc2; unsigned char tag = 9; unsigned long long mlen = 0;
+        { LibScope l; rc = crypto_secretstream_xchacha20poly1305_push(&st_push, out.p, nullptr, m.data(), m.size(), ad, adlen, 0); }
+        if (rc != 0 || memcmp(out.p, expect.data(), expect.size()) != 0) res.fail("chunk-mismatch", "giant-ad", "chunk with " + std::to_string(adlen) + " bytes of associated data differs from the documented construction", step);
+        { LibScope l; rc2 = crypto_secretstream_xchacha20poly1305_pull(&st_pull, dec.p, &mlen, &tag, out.p, out.n, ad, adlen); }
+        if (!res.violated && (rc2 != 0 || mlen != m.size() || memcmp(dec.p, m.data(), m.size()) != 0)) res.fail("rejected-genuine", "giant-ad", "genuine chunk with " + std::to_string(adlen) + " bytes of associated data rejected or wrongly decrypted", step);
+        if (!res.violated && (!real_eq_model(st_push, model) || !real_eq_model(st_pull, model))) res.fail("state-desync", "giant-ad", "states differ from model after a chunk with giant associated data", step);
+        munmap(ad, adlen);
+        res.count("probe.giant_ad_checked");
+        dg.add(out.p, out.n);
     }
 
     void do_rekey(const Op &op) {
@@ -367,6 +398,7 @@ struct Exec {
             case OP_PUSH: do_push(op); break;
             case OP_REKEY: do_rekey(op); break;
             case OP_DELIVER: do_deliver(op); break;
+            case OP_GIANT: do_giant(op); break;
             }
             res.steps++;
         }
@@ -452,6 +484,10 @@ struct C09 {
         // fault rate knob: a third of the runs are fault-free FIFO
         unsigned fr = (unsigned) knobs.below(3) == 0 ? 0 : (unsigned) knobs.range(5, 60); // percent
         size_t nops = (size_t) ops.range(4, thorough ? 60 : 40);
+        if (thorough && run % 400 == 0 && (run % 40000000000ULL) / 400 < 6) { // first run of the first six batches of each binary's range (six CPU masks)
+            Op g; g.kind = OP_GIANT; g.mlen = (uint32_t) ops.below(300); g.adlen = (uint32_t) ops.below(200);
+            p.ops.push_back(g);
+        }
         std::vector<int> pushed((size_t) p.sessions, 0);
         for (size_t i = 0; i < nops; i++) {
             Op op;
@@ -505,6 +541,7 @@ struct C09 {
                 if (o.null_outlen) q["null_outlen"] = true;
                 if (o.null_ad) q["null_ad"] = true;
             } else if (o.kind == OP_REKEY) { q["op"] = "rekey"; q["s"] = o.s; }
+            else if (o.kind == OP_GIANT) { q["op"] = "giant_ad_roundtrip"; q["s"] = 0; q["mlen"] = o.mlen; q["adlen"] = o.adlen; }
             else {
                 q["op"] = "deliver"; q["s"] = o.s; q["pick"] = o.pick; q["fault"] = fault_name[o.fault % F_NFAULTS];
                 if (o.fault != F_INTACT) { q["fa"] = o.fa; q["fb"] = o.fb; q["to"] = o.to; }
@@ -536,6 +573,7 @@ struct C09 {
                 o.kind = OP_PUSH; o.tag = (int) q.at("tag").i64(); o.mlen = (uint32_t) q.at("mlen").u64(); o.adlen = (uint32_t) q.at("adlen").u64();
                 o.null_outlen = q.at("null_outlen").boolean(); o.null_ad = q.at("null_ad").boolean();
             } else if (k == "rekey") o.kind = OP_REKEY;
+            else if (k == "giant_ad_roundtrip") { o.kind = OP_GIANT; o.mlen = (uint32_t) q.at("mlen").u64(); o.adlen = (uint32_t) q.at("adlen").u64(); }
             else {
                 o.kind = OP_DELIVER; o.pick = (uint32_t) q.at("pick").u64();
                 std::string f = q.at("fault").str();
@@ -597,7 +635,7 @@ struct C09 {
         ev["components"] = comp;
         Json as = Json::array();
         as.push("a forged or foreign chunk passes Poly1305 verification with probability 2^-128; treated as never");
-        as.push("message sizes mostly <= 4096 bytes with occasional ones up to ~70 KB, <= 60 operations per run; sizes near MESSAGEBYTES_MAX are out of reach");
+        as.push("message sizes mostly <= 4096 bytes with occasional ones up to ~70 KB, <= 60 operations per run; sizes near MESSAGEBYTES_MAX are out of reach (thorough tier: six push/pull round trips per binary, under different CPU masks, with > 2^32 bytes of associated data)");
         as.push("the chunk counter is positioned at 2^32-k by writing the public state struct, exactly as the property's quantifier describes");
         ev["assumptions"] = as;
         ev["simulated_time_note"] = "the property reads no clock; progress is counted in transport/operation steps (sim_steps)";
